@@ -58,22 +58,46 @@ func nativeReplay(repo, verifDir, cfgDir string, cfg Config, rc RunCfg, replayPa
 }
 
 func nativeReplayOnce(repo, verifDir, cfgDir string, cfg Config, rc RunCfg, replayPath string) (bool, string) {
+	verdict, detail, kind := nativeRun(repo, verifDir, cfgDir, cfg, rc, replayPath)
+	switch {
+	case verdict == "ERROR":
+		return false, detail
+	case kind == "panic" && verdict == "PANIC":
+		return true, ""
+	case kind != "panic" && verdict == "ASSERT-FAILED":
+		return true, ""
+	case verdict == "OK":
+		return false, "native run passed"
+	case verdict == "ASSUME-FAILED":
+		return false, "native run violated an assumption"
+	case verdict == "PANIC":
+		return false, "native run panicked instead"
+	case verdict == "TIMEOUT":
+		return false, "native replay timed out"
+	}
+	return false, "native run gave no verdict: " + detail
+}
+
+// nativeRun runs the harness natively on the inputs of a replay/witness file and
+// returns the protocol verdict: OK | ASSERT-FAILED | PANIC | ASSUME-FAILED |
+// CRASHED | NONE | TIMEOUT | ERROR, some detail, and the file's kind.
+func nativeRun(repo, verifDir, cfgDir string, cfg Config, rc RunCfg, replayPath string) (string, string, string) {
 	raw, err := os.ReadFile(replayPath)
 	if err != nil {
-		return false, err.Error()
+		return "ERROR", err.Error(), ""
 	}
 	var rf ReplayFile
 	json.Unmarshal(raw, &rf)
 	tmp, err := os.MkdirTemp("", "gosym-replay-*")
 	if err != nil {
-		return false, err.Error()
+		return "ERROR", err.Error(), rf.Kind
 	}
 	defer os.RemoveAll(tmp)
 	pkg0 := strings.Fields(rc.Pkg)[0]
 	pkgDir := filepath.Join(repo, strings.TrimPrefix(pkg0, "./"))
 	pkgName, err := packageName(pkgDir)
 	if err != nil {
-		return false, err.Error()
+		return "ERROR", err.Error(), rf.Kind
 	}
 	repl := map[string]string{}
 	add := func(target string, content []byte) {
@@ -86,7 +110,7 @@ func nativeReplayOnce(repo, verifDir, cfgDir string, cfg Config, rc RunCfg, repl
 	for target, src := range cfg.Overlays {
 		b, err := os.ReadFile(filepath.Join(cfgDir, src))
 		if err != nil {
-			return false, err.Error()
+			return "ERROR", err.Error(), rf.Kind
 		}
 		add(filepath.Join(repo, target), b)
 	}
@@ -132,27 +156,29 @@ func nativeReplayOnce(repo, verifDir, cfgDir string, cfg Config, rc RunCfg, repl
 	case <-done:
 	case <-time.After(15 * time.Minute):
 		cmd.Process.Kill()
-		return false, "native replay timed out"
+		return "TIMEOUT", "", rf.Kind
 	}
 	s := string(out)
 	os.WriteFile(strings.TrimSuffix(replayPath, ".json")+".native.log", out, 0o644)
-	switch {
-	case rf.Kind == "panic" && strings.Contains(s, "VERIF-REPLAY: PANIC"):
-		return true, ""
-	case rf.Kind != "panic" && strings.Contains(s, "VERIF-REPLAY: ASSERT-FAILED"):
-		return true, ""
-	case strings.Contains(s, "VERIF-REPLAY: OK"):
-		return false, "native run passed"
-	case strings.Contains(s, "VERIF-REPLAY: ASSUME-FAILED"):
-		return false, "native run violated an assumption"
-	case strings.Contains(s, "VERIF-REPLAY: PANIC"):
-		return false, "native run panicked instead"
-	}
 	tail := s
 	if len(tail) > 600 {
 		tail = tail[len(tail)-600:]
 	}
-	return false, "native run gave no verdict: " + tail
+	switch {
+	case rf.Kind == "panic" && strings.Contains(s, "VERIF-REPLAY: PANIC"):
+		return "PANIC", tail, rf.Kind
+	case strings.Contains(s, "VERIF-REPLAY: ASSERT-FAILED"):
+		return "ASSERT-FAILED", tail, rf.Kind
+	case strings.Contains(s, "VERIF-REPLAY: PANIC"):
+		return "PANIC", tail, rf.Kind
+	case strings.Contains(s, "VERIF-REPLAY: ASSUME-FAILED"):
+		return "ASSUME-FAILED", tail, rf.Kind
+	case strings.Contains(s, "VERIF-REPLAY: CRASHED"):
+		return "CRASHED", tail, rf.Kind
+	case strings.Contains(s, "VERIF-REPLAY: OK"):
+		return "OK", tail, rf.Kind
+	}
+	return "NONE", tail, rf.Kind
 }
 
 func addImport(src []byte, imp string) []byte {
